@@ -64,7 +64,8 @@ def classify(component, what, case):
             and any(case.get("derived_from_base", [])) and not all(case.get("derived_from_base", [])):
         return "F410"
     # F411: identityref sort callback looks at the identity name only: same name, different module
-    if ty.startswith("idref:") and law in ("sort_consistent_with_eq", "leaflist_order") and case.get("reply", [None] * 3)[1:4] == ["0", "0", "0"]:
+    if (ty.startswith("idref:") or (ty.startswith("U(") and "idref:" in ty)) and law in ("sort_consistent_with_eq", "leaflist_order") \
+            and case.get("reply", [None] * 3)[1:4] == ["0", "0", "0"] and b":" in unhex(case["a_hex"]) and b":" in unhex(case["b_hex"]):
         a, b = unhex(case["a_hex"]), unhex(case["b_hex"])
         if a.split(b":")[-1] == b.split(b":")[-1] and a != b:
             return "F411"
